@@ -76,7 +76,7 @@ PROPS = {
         'assumptions': [], 'trusted': [],
     },
     'C13': {
-        'props': ['C13', 'C13w', 'C13v'], 'suites': [('alias', 2000, 100000), ('cfgv', 1500, 40000), ('w_c13', 200, 6000)],
+        'props': ['C13', 'C13w', 'C13v', 'C13b'], 'suites': [('alias', 2000, 100000), ('cfgv', 1500, 40000), ('w_c13', 200, 6000)],
         'rule': 'alias: topic sequences over a pool of 1-8 topics against the fifo alias manager with maxima 0,1,2,3,5,65535; non-trivial = an alias was reused and an eviction happened. '
                 'cfgv: configurations (maximum_qos, max_queued_messages incl. <= 0, server_receive_maximum, max_packet_size, max_inflight at 0 / 1 / = / > max_queued_messages, delivery modes incl. unknown ones) through the real config.MQTT.Validate '
                 'and through the guard list regenerated from its source (Gen/ValidateTable.v); oracle: accepted iff the documented constraints hold',
